@@ -20,6 +20,9 @@ var registry = map[string]checkFn{
 	"C09": checkC09,
 	"C10": checkC10,
 	"C11": checkC11,
+	"C12": checkC12,
+	"C13": checkC13,
+	"C14": checkC14,
 	"C22": checkC22,
 	"C25": checkC25,
 	"C28": checkC28,
